@@ -151,6 +151,10 @@ Definition h_create (st : store) (full : list id) : bool :=
 Definition inputs_ok (sets : list smap) (chains : list (list id)) : bool :=
   forallb (fun s => nodup_keys (map fst s)) sets && forallb nodup_ids chains.
 
+(** Every event id occurring in a state set is known to the store. *)
+Definition sets_known (st : store) (sets : list smap) : bool :=
+  forallb (fun s => forallb (fun kv => known st (snd kv)) s) sets.
+
 (** * Running one case *)
 Definition sx_res (r : outcome smap) (oracle : sx) : sx :=
   match r with
@@ -186,7 +190,7 @@ Definition in_known_class (dflt : bool) st sets chains : bool :=
   || class_mainline st (auth_tbl dflt) e_atypes false sets chains.
 
 Definition case_ok (st : store) (sets : list smap) (chains : list (list id)) : bool :=
-  store_ok [] st && inputs_ok sets chains
+  store_ok [] st && inputs_ok sets chains && sets_known st sets
   && h_create st (full_conflicted st sets chains)
   && (negb (is_nil (conflicted_events sets)) || is_nil (auth_difference chains)).
 
